@@ -29,7 +29,8 @@ def _mat(case):
         if case.get("dtype") == "int" and all(x.denominator == 1 for r in M for x in r):
             return np.array([[int(x) for x in r] for r in M], dtype=np.int64)
         return np.array([[float(x) for x in r] for r in M], dtype=float)
-    return np.array(case["A"], dtype=float if case.get("dtype") == "float" else int)
+    from props.gcommon import DTYPES
+    return np.array(case["A"], dtype=DTYPES.get(case.get("dtype", "int")))
 
 
 def check(case):
@@ -150,7 +151,7 @@ def _run_exh(acc, job):
     for k, (code, P) in enumerate(pdag_codes(p)):
         if k % job["nshards"] != job["shard"]:
             continue
-        case = {"sub": "pdag_exh", "A": G.lists_from_rows(P), "dtype": "float" if code % 2 else "int", "subsets": subsets}
+        case = {"sub": "pdag_exh", "A": G.lists_from_rows(P), "dtype": ["int", "float", "uint8", "bool", "int32", "float32"][code % 6], "subsets": subsets}
         try:
             lab = check(case)
             acc.record(case, lab, _nontrivial(case, lab), by_construction=True, sample=(code % 997 == 1))
@@ -164,7 +165,7 @@ def _run_exh(acc, job):
 def _hyp_case(draw):
     kind = draw(st.sampled_from(["pdag", "embedded", "weighted", "weighted", "weighted_embedded", "faithless"]))
     if kind == "pdag":
-        case = {"A": draw(S.pdag(1, 9, weights=(3, 3, 2))), "dtype": draw(st.sampled_from(["int", "float"]))}
+        case = {"A": draw(S.pdag(1, 9, weights=(3, 3, 2))), "dtype": draw(st.sampled_from(["int", "float", "uint8", "bool", "float32"]))}
     elif kind == "embedded":
         case = {"A": draw(S.embedded(draw(S.pdag(2, 6, weights=(2, 3, 2))))), "dtype": draw(st.sampled_from(["int", "float"]))}
     elif kind == "weighted":
